@@ -194,6 +194,7 @@ def notedata_verbatim(ctx: Ctx) -> None:
     init = p.func(f"{ND}.__init__")
     sn = init.param_names()[0]
     srcp = init.param_names()[1]
+    # nobody but the constructor stores the text
     n = 0
     for f in p.nontest_functions():
         for node in body_walk(f.node):
@@ -207,12 +208,34 @@ def notedata_verbatim(ctx: Ctx) -> None:
                     n += 1
                     if f.fq != init.fq:
                         ctx.bad("R-EFFECT", f, "store to ._notedata outside NoteData.__init__", src(node), node=node)
-                        continue
-                    v = node.value if not isinstance(node, ast.AugAssign) else None
-                    ok = v is not None and ((isinstance(v, ast.Name) and v.id == srcp) or (isinstance(v, ast.Attribute) and isinstance(v.value, ast.Name)
-                                            and v.value.id == srcp and v.attr in ("notes", "_notedata")))
-                    ctx.expect("R-TABLE", f, f"_notedata <- {src(v) if v is not None else '?'} (verbatim)", ok, "", f"{src(node)} transforms the text", node=node)
-    ctx.floor("stores to _notedata", n, 3)
+    ctx.floor("stores to _notedata", n, 1)
+    # what the constructor stores, by the kind of source
+    from .tables import Dec, closed_text as _ct, judge as tjudge, sums_of as tsums
+    from ..decide import IGNORE as _IGN
+    S, C, N = f"isinstance({srcp}, str)", f"isinstance({srcp}, BaseChart)", f"isinstance({srcp}, NoteData)"
+    NN = f"{srcp}.notes is None"
+    decs = []
+    for s_ in tsums(ctx, init):
+        eff = []
+        for e in s_.effects:
+            if e.kind == "store" and ast.unparse(e.target) == f"{sn}._notedata":
+                eff.append(_ct(s_, e, keep=[sn, srcp]))
+            elif e.kind == "raise":
+                ex = e.value.func if isinstance(e.value, ast.Call) else e.value
+                eff.append("raise " + (ast.unparse(ex) if ex is not None else ""))
+        decs.append(Dec(dict(s_.plain_assign()), tuple(eff), s_))
+
+    def spec(a):
+        if a[S]:
+            return (f"{sn}._notedata = {srcp}",)
+        if a[C]:
+            return ("raise ValueError",) if a[NN] else (f"{sn}._notedata = {srcp}.notes",)
+        if a[N]:
+            return (f"{sn}._notedata = {srcp}._notedata",)
+        return ("raise TypeError",)
+
+    tjudge(ctx, "R-TABLE", init, "the note data text is kept verbatim: a str as it is, a chart's notes (ValueError when it has none), another NoteData's text; anything else is a TypeError",
+           decs, [S, C, N, NN], spec, why="the string form of the note data must be the original text unchanged")
     s = p.func(f"{ND}.__str__")
     rets = [r for r in body_walk(s.node) if isinstance(r, ast.Return)]
     ctx.expect("R-TABLE", s, "str(NoteData) is the stored text", len(rets) == 1 and self_attr(rets[0].value, s.param_names()[0]) == "_notedata", "", "", node=s.node)
@@ -283,12 +306,10 @@ def from_notes_fill(ctx: Ctx) -> None:
     p = ctx.p
     fi = p.func(f"{ND}.from_notes")
     pmf = fi.nested.get("push_measure")
-    prf = fi.nested.get("push_row")
-    require(pmf is not None and prf is not None, f"{fi.fq}: nested push_measure / push_row not found")
+    require(pmf is not None, f"{fi.fq}: nested push_measure not found")
     specs = [
         (fi, "player", "n.player", pmf, "&\n"),
         (fi, "measure", "n.beat // 4", pmf, ",\n"),
-        (pmf, "row", None, prf, None),
     ]
     writes_const: Dict[str, List[str]] = {}
     for host, what, keysrc, filler, sep in specs:
@@ -377,7 +398,6 @@ def from_notes_rows(ctx: Ctx) -> None:
     p = ctx.p
     fi = p.func(f"{ND}.from_notes")
     pm = fi.nested["push_measure"]
-    pr = fi.nested["push_row"]
     mparam = pm.param_names()[0]
     # q = lcm of the beats' denominators: an accumulator starting at 1, folded over every note of the measure with a*d // gcd(a, d)
     from .tables import sums_of as tsums
@@ -430,68 +450,142 @@ def from_notes_rows(ctx: Ctx) -> None:
 
     okk = P.equal(P.poly(inner), P.mul(P.atom(MOD), P.atom(q))) and isinstance(it, ast.Name) and it.id == mparam
     ctx.expect("R-POLY", pm, "row index of a note is (beat mod 4) * q", okk, src(body), f"row key is {src(body)} over {src(it)}", node=lp)
-    # trailing rows up to 4*q
-    trail = []
-    for f2 in for_loops(pm):
-        if f2 is lp or in_body(lp, f2):
+    # rows: every row is written as 'columns' zero cells with each note's own text at its column, joined, then a line break; the rows of a measure
+    # are: blanks for range(last + 1, r), the group's row, last <- r (per group); then blanks for range(last + 1, 4*q)
+    from .common import string_parts as _sp
+    from .tables import closed as _closed2, closed_text as _ct2
+
+    def row_tokens(s_, keep=()):
+        """Effects of one path as tokens: ('for', line, iterable) / ('row', loops, source|'blank') / ('bind', loops, text) / ('?', text)."""
+        toks = []
+        effs = s_.effects
+        i = 0
+        while i < len(effs):
+            e = effs[i]
+            if e.kind == "for":
+                toks.append(("for", e.line, _ct2(s_, e, keep=keep).split(" ", 1)[-1], e.loops))
+                i += 1
+                continue
+            if e.kind == "bind" and isinstance(e.target, ast.Name) and e.opaque and e.value is not None and ast.unparse(e.value) == "['0'] * columns":
+                X = e.target.id
+                loops0 = e.loops
+                j = i + 1
+                source = "blank"
+                ok = True
+                if j < len(effs) and effs[j].kind == "for" and effs[j].loops == loops0:
+                    cell_loop = effs[j]
+                    nv_ = ast.unparse(cell_loop.target)
+                    source = _ct2(s_, cell_loop, keep=keep).split(" ", 1)[-1]
+                    j += 1
+                    if j < len(effs) and effs[j].kind == "store" and cell_loop.line in effs[j].loops:
+                        ok = effs[j].text == f"{X}[{nv_}.column] = str({nv_})"
+                        j += 1
+                    else:
+                        ok = False
+                seq = []
+                while j < len(effs) and effs[j].kind == "expr" and effs[j].loops == loops0 and ast.unparse(effs[j].value).startswith("notedata.write("):
+                    parts = _sp(effs[j].value.args[0]) if len(effs[j].value.args) == 1 else None
+                    if parts is None:
+                        ok = False
+                        break
+                    for k_, x_ in parts:
+                        if k_ == "lit":
+                            if seq and seq[-1][0] == "lit":
+                                seq[-1] = ("lit", seq[-1][1] + x_)
+                            else:
+                                seq.append(("lit", x_))
+                        else:
+                            seq.append(("expr", ast.unparse(x_.value if isinstance(x_, ast.FormattedValue) else x_)))
+                    j += 1
+                    if seq == [("expr", f"''.join({X})"), ("lit", "\n")]:
+                        break
+                if ok and seq == [("expr", f"''.join({X})"), ("lit", "\n")]:
+                    toks.append(("row", loops0, source))
+                else:
+                    toks.append(("?", f"row started at line {e.line % 100000} is not '0'-cells + note texts at their columns, joined, + line break: {seq}"))
+                i = j
+                continue
+            if e.kind == "bind" and isinstance(e.target, ast.Name) and (e.opaque or isinstance(e.value, ast.Name)) and e.loops:
+                toks.append(("bind", e.loops, e.text))
+            elif e.kind in ("expr", "store", "yield", "return", "raise") and not (e.kind == "return" and e.value is None):
+                toks.append(("?", e.text))
+            i += 1
+        return toks
+
+    msums2 = tsums(ctx, pm)
+    gl = {(ast.unparse(e.target), e.line) for s_ in msums2 for e in s_.effects if e.kind == "for" and isinstance(e.value, ast.Call) and ast.unparse(e.value.func) in ("groupby", "itertools.groupby") and not e.loops}
+    require(len(gl) == 1, f"{pm.fq}: expected one groupby loop over the rows, found {sorted(gl)}")
+    gt, gline = next(iter(gl))
+    gtt = ast.parse(gt, mode="eval").body
+    require(isinstance(gtt, ast.Tuple) and len(gtt.elts) == 2 and all(isinstance(x, ast.Name) for x in gtt.elts), f"{pm.fq}: groupby target {gt} is not (index, row)")
+    rk, rrow = gtt.elts[0].id, gtt.elts[1].id
+    bad_tokens = set()
+    in_loop_seqs = set()
+    tail_seqs = set()
+    lasts = set()
+    for s_ in msums2:
+        for e in s_.effects:
+            if e.kind == "bind" and gline in e.loops and isinstance(e.target, ast.Name) and isinstance(e.value, ast.Name) and e.value.id == rk:
+                lasts.add(e.target.id)
+    keep_ = [q, rk, rrow] + sorted(lasts)
+    for s_ in msums2:
+        toks = row_tokens(s_, keep_)
+        for t in toks:
+            if t[0] == "?":
+                bad_tokens.add(t[1])
+        if any(t[0] == "for" and t[1] == gline for t in toks):
+            inl = tuple((t[0],) + tuple(x for x in t[2:] if not isinstance(x, tuple)) for t in toks if (t[0] in ("row", "bind") and gline in t[1]) or (t[0] == "for" and gline in t[3]))
+            in_loop_seqs.add(inl)
+            for t in toks:
+                pass
+        # after the groupby loop (or instead of it): trailing blanks
+        idx_g = max([i for i, t in enumerate(toks) if (t[0] == "for" and (t[1] == gline or gline in t[3])) or (t[0] in ("row", "bind") and gline in t[1])] or [-1])
+        tail = tuple((t[0],) + tuple(x for x in t[2:] if not isinstance(x, tuple)) for t in toks[idx_g + 1:] if not (t[0] == "bind") and not (t[0] == "for" and "measure" == t[2] and False))
+        tail = tuple(t for t in tail if not (t[0] == "for" and not t[1].startswith("range(")))
+        tail_seqs.add(tail)
+    ctx.expect("R-TABLE", pm, "a row is 'columns' zero cells with each note's own text (str(note)) at its column, joined, then a line break", not bad_tokens, "", "; ".join(sorted(bad_tokens))[:400], node=pm.node)
+    last = one(sorted(lasts), f"'last row' sentinel of {pm.fq}") if lasts else None
+    if last is None:
+        ctx.bad("R-ORDER", pm, "'last row' is advanced to the current row every iteration", f"no local is set to the group's row index '{rk}' inside the row loop", node=pm.node)
+        return
+
+    def is_range(txt, lo_poly, hi_poly):
+        try:
+            c = ast.parse(txt, mode="eval").body
+        except SyntaxError:
+            return False
+        return isinstance(c, ast.Call) and isinstance(c.func, ast.Name) and c.func.id == "range" and len(c.args) == 2 and not c.keywords and P.equal(P.poly(c.args[0]), lo_poly) and P.equal(P.poly(c.args[1]), hi_poly)
+
+    lo_p = P.add(P.atom(last), P.const(1))
+    want_group = ("row", f"list({rrow})")
+    okg = bool(in_loop_seqs)
+    detail_g = []
+    for seq in in_loop_seqs:
+        seq = list(seq)
+        if seq and seq[0][0] == "for":
+            if not (is_range(seq[0][1], lo_p, P.atom(rk)) and len(seq) >= 2 and seq[1] == ("row", "blank")):
+                okg = False
+            seq = seq[2:]
+        if seq != [want_group, ("bind", f"{last} := {rk}")]:
+            okg = False
+        detail_g.append(str(seq))
+    ctx.expect("R-POLY", pm, f"per group of the measure: blanks for range({last} + 1, {rk}), then the group's row with all its notes, then {last} <- {rk}", okg, "", f"row loop does: {sorted(in_loop_seqs, key=str)}", node=pm.node)
+    okt = bool(tail_seqs)
+    for seq in tail_seqs:
+        seq = list(seq)
+        if not seq:
             continue
-        it2 = f2.iter
-        if isinstance(it2, ast.Call) and isinstance(it2.func, ast.Name) and it2.func.id == "range" and len(it2.args) == 2:
-            trail.append(f2)
-    tl = one(trail, f"trailing-rows loop in {pm.fq}")
-    lo, hi = tl.iter.args
-    lastn = [n.id for n in ast.walk(lo) if isinstance(n, ast.Name)]
-    okt = len(lastn) == 1 and P.equal(P.poly(lo), P.add(P.atom(lastn[0]), P.const(1))) and P.equal(P.poly(hi), P.mul(P.const(4), P.atom(q)))
-    ctx.expect("R-POLY", pm, "a measure has exactly 4*q rows", okt, src(tl.iter), f"trailing rows are {src(tl.iter)}; the row count must be 4*q", node=tl)
-    cfgm = ctx.cfg(pm)
-    ctx.expect("R-ORDER", pm, "the trailing rows are written on every path", cfgm.must_pass([cfgm.node_for(tl)]) is None and cfgm.dominates(cfgm.node_for(lp), cfgm.node_for(tl)), "", "", node=tl)
-    tc = [c for st in tl.body for c in walk_no_nested(st) if isinstance(c, ast.Call) and callee(ctx, pm, c) is pr and not c.args]
-    ctx.expect("R-ORDER", pm, "each trailing row is blank", len(tc) == 1, "", "", node=tl)
+        # on a path without any group the sentinel is still -1, and without any note q is still 1: the same range with those values
+        alts = [(lo_, hi_) for lo_ in (lo_p, P.const(0)) for hi_ in (P.mul(P.const(4), P.atom(q)), P.const(4))]
+        if not (seq[0][0] == "for" and any(is_range(seq[0][1], lo_, hi_) for lo_, hi_ in alts) and seq[1:] == [("row", "blank")]):
+            okt = False
+    okt = okt and any(seq for seq in tail_seqs)
+    ctx.expect("R-POLY", pm, "a measure has exactly 4*q rows: trailing blanks for range(last + 1, 4*q), on every path", okt, "", f"after the groups: {sorted(tail_seqs, key=str)}; the row count must be 4*q", node=pm.node)
+    inits = {ast.unparse(r_[1].value) for s_ in msums2 for i_, e in enumerate(s_.effects) if e.kind == "for" and e.line == gline for r_ in [s_.resolve(last, i_)] if r_ is not None and r_[1].value is not None}
+    ctx.expect("R-ORDER", pm, f"'{last}' starts at -1", inits == {"-1"}, str(sorted(inits)), f"{last} before the row loop: {sorted(inits)}", node=pm.node)
     # measure key
     flp = [x for x in _groupby_loops(ctx, fi) if ast.unparse(x[4].body) == f"{x[4].args.args[0].arg}.beat // 4"]
     ctx.expect("R-POLY", fi, "measure index of a note is beat // 4", len(flp) == 1, "", "no groupby on 'beat // 4'", node=fi.node)
-    # push_row
-    rparam = pr.param_names()[0]
-    loc = locals_of(pr)
-    cells = None
-    for name, bs in loc.b.items():
-        for b in bs:
-            v = b.value
-            if b.kind == "assign" and isinstance(v, ast.BinOp) and isinstance(v.op, ast.Mult):
-                l, r = v.left, v.right
-                if isinstance(l, ast.List) and len(l.elts) == 1 and try_ev(ctx, pr, l.elts[0]) == "0" and isinstance(r, ast.Name) and r.id == "columns":
-                    cells = name
-    ctx.expect("R-TABLE", pr, "a row starts as 'columns' zero cells", cells is not None, "", "no [\"0\"] * columns", node=pr.node)
-    if cells:
-        stores = [n for n in body_walk(pr.node) if isinstance(n, ast.Assign) and isinstance(n.targets[0], ast.Subscript) and isinstance(n.targets[0].value, ast.Name)
-                  and n.targets[0].value.id == cells]
-        st = one(stores, f"cell store in {pr.fq}")
-        rl = [lp2 for lp2 in for_loops(pr) if isinstance(lp2.iter, ast.Name) and lp2.iter.id == rparam and isinstance(lp2.target, ast.Name)]
-        rlp = one(rl, f"loop over the row's notes in {pr.fq}")
-        nv = rlp.target.id
-        okc = ast.unparse(st.targets[0].slice) == f"{nv}.column" and ast.unparse(st.value) == f"str({nv})" and in_body(rlp, st)
-        ctx.expect("R-TABLE", pr, "each note's text is written at its column", okc, src(st), f"{src(st)}", node=st)
-        ws = [c for c in method_calls(pr, "write")]
-        texts = [src(c.args[0]) for c in ws if c.args]
-        # what is written, concatenated over the write calls (one call or several): ''.join(cells) + "\n"
-        from .common import string_parts as _sp
-        seq = []
-        okw = bool(ws)
-        for c in ws:
-            parts = _sp(c.args[0]) if len(c.args) == 1 else None
-            if parts is None:
-                okw = False
-                break
-            for k_, x_ in parts:
-                if k_ == "lit":
-                    if seq and seq[-1][0] == "lit":
-                        seq[-1] = ("lit", seq[-1][1] + x_)
-                    else:
-                        seq.append(("lit", x_))
-                else:
-                    seq.append(("expr", ast.unparse(x_.value if isinstance(x_, ast.FormattedValue) else x_)))
-        okw = okw and seq == [("expr", f"''.join({cells})"), ("lit", "\n")]
-        ctx.expect("R-TABLE", pr, "a row is its cells joined, then a line break", okw, str(texts), f"row writes: {texts}", node=pr.node)
     # Note.__str__ : type character + [index] iff keysound_index is not None
     ns = p.func("simfile.notes:Note.__str__")
     sn = ns.param_names()[0]
